@@ -1,5 +1,6 @@
 import Ivg.Lemmas.FitQ
-import Ivg.Gen.Tie
+import Ivg.Gen.Tie.DrawOps
+import Ivg.Gen.Tie.Magic
 import Ivg.Obligations
 /-!
 # C12 — aspect-preserving fitting (`ViewBox.AspectMeet` / `AspectSlice` / `Size`)
